@@ -221,10 +221,14 @@ ROWS = [
     R("stdout", "%option stdout", ["-t"], [("stdout_has", "yylex")], no_o=True),
     R("c++", "%option c++", ["-+"], [("output_has", "yyFlexLexer::yylex")], lang="c++",
       base={"code": "int main() { yyFlexLexer l; while (l.yylex()) ; return 0; }\n"}),
-    R("yyclass", '%option c++ yyclass="Probe"', None, [("output_has", "Probe::yylex")], lang="c++",
-      without_opt="%option c++",
+    R("yyclass", '%option c++ yyclass="Probe"', ["--yyclass=Probe"], [("output_has", "Probe::yylex")],
+      lang="c++", without_opt="%option c++",
       base={"top": "", "code": "int main() { return 0; }\n",
             "defs": ""}),
+    # (the language may be chosen after the class name: later on the command line, or in the file)
+    R("yyclass-before-c++", '%option yyclass="Probe" c++', ["--yyclass=Probe", "-+"],
+      [("output_has", "Probe::yylex")], lang="c++",
+      base={"top": "", "code": "int main() { return 0; }\n", "defs": ""}),
     R("emit-c99", '%option emit="c99"', ["--emit=c99"], [("output_has", "struct yyguts_t")],
       base={"code": "int main(void) { yyscan_t s; yylex_init(&s); while (yylex(s)) ; yylex_destroy(s); return 0; }\n"}),
     R("reject", "%option reject", ["--reject"], [("output_has", "yy_state_buf")]),
